@@ -4,6 +4,7 @@ import (
 	"go/ast"
 	"go/token"
 	"go/types"
+	"strings"
 )
 
 func dead() *state { d := newState(); d.dead = true; return d }
@@ -64,10 +65,15 @@ func (w *walker) stmt(st *state, s ast.Stmt, label string) *state {
 	case *ast.ExprStmt:
 		if c, ok := s.X.(*ast.CallExpr); ok {
 			if it, m, ok := mutexCall(c); ok {
+				if _, isId := unparen(lastMutexBase).(*ast.Ident); !isId {
+					w.expr(st, lastMutexBase, false) // x.next.mu.Lock() reads x.next
+				}
 				if m == "Lock" {
 					st.held[it] = true
+					st.acq[it] = c.Pos()
 				} else {
 					delete(st.held, it)
+					delete(st.acq, it)
 				}
 				return st
 			}
@@ -216,6 +222,13 @@ func (w *walker) assign(st *state, s *ast.AssignStmt) {
 			continue
 		}
 		w.expr(st, l, true)
+		if k, _ := exprKey(l); !strings.HasPrefix(k, "?") {
+			for it := range st.held { // x.next = y: a lock taken through x.next no longer names the same object
+				if !it.Glob && (it.Key == k || strings.HasPrefix(it.Key, k+".")) {
+					delete(st.held, it)
+				}
+			}
+		}
 		if s.Tok != token.ASSIGN && s.Tok != token.DEFINE {
 			w.expr(st, l, false) // x.f += 1 also reads
 		}
@@ -365,7 +378,7 @@ func (w *walker) goStmt(st *state, s *ast.GoStmt) {
 		if _, ok := w.an.classes[cls]; !ok {
 			w.an.classes[cls] = singleFns[rootName(w.u.name)]
 		}
-		w.recordCall(&state{held: map[lockItem]bool{}, fresh: map[types.Object]bool{}}, fn, nil, nil, cls)
+		w.recordCall(newState(), fn, nil, nil, cls, c.Pos())
 	}
 }
 
